@@ -13,8 +13,11 @@ MANIFEST = {
             "Tie / search for everything else (tag protocol, lists, templates, slots, other expression forms): metamorphic execution under node of generated templates: create(D0); "
             "update(D1,U1); ... must equal create(Di) after EVERY step, with U exact, coarsened and `true`; plus, for a family of "
             "small templates, ALL subsets of changed leaf paths (exhaustive).",
-    "note": "The TypeScript runtime is represented by jsrt (reference protocol runtime: positional list diff for key-less lists, "
-            "conservative trees for keyed lists; no components / dynamic slots). Functions in data are pure.",
+    "note": "The TypeScript runtime is represented by jsrt/rt.js (reference protocol runtime written from proc_gen_wrapper.ts; no "
+            "components / dynamic slots) EXCEPT the list manager: glass-easel/src/tmpl/range_list_diff.ts itself is executed, "
+            "translated to JavaScript on every run by the type-erasing translator lib/tsstrip.py (trusted: erases imports, field "
+            "declarations, annotations, casts, non-null assertions, one const enum; checked by node --check), behind an adapter "
+            "for the child-list operations of element.ts. Functions in data are pure.",
     "technique": "Coq proof (guard soundness of the path analysis on the access/operator/conditional fragment, update-path-tree coverage) + model/implementation text and denotation correspondence + exhaustive / matrix / random metamorphic execution under node",
     "jsrt": True,
 }
@@ -127,6 +130,14 @@ def run(res):
             if n_guard <= 3:
                 res.violation("update guard text differs from the Coq model of the path analysis: impl=%s model guard=%s" % (
                     dec(i.split("|")[0])[:300], dec(m.split("|")[4])[:200]), {"case": c.split("\t"), "impl": i, "model": m}, no_input=True)
+    # the list manager of the real runtime is translated from /repo's TypeScript on every run (lib/tsstrip.py)
+    rld = real_list_manager()
+    res.notes["range_list_diff"] = ("glass-easel/src/tmpl/range_list_diff.ts translated by lib/tsstrip.py -> %s" % os.path.basename(rld)) if rld \
+        else "NOT translated"
+    if not rld:
+        res.violation("the type-erasing translator cannot process glass-easel/src/tmpl/range_list_diff.ts (%s): the list diff of "
+                      "the real runtime is not under execution" % RLD_STATE["error"],
+                      {"obligation": "translator lib/tsstrip.py on range_list_diff.ts", "error": RLD_STATE["error"]}, no_input=True)
     results = behave.get_results(res.tier, res.seed, "behave")
     subsets = behave.get_results(res.tier, res.seed, "behave_subsets")
     matrix = behave.get_results(res.tier, res.seed, "behave_matrix")
